@@ -106,8 +106,9 @@ def main(argv=None):
         return 2
 
     known, fixed = load_findings()
-    os.makedirs(os.path.join(VERIF, "replays", pid), exist_ok=True)
-    os.makedirs(os.path.join(VERIF, "evidence"), exist_ok=True)
+    OUT = os.environ.get("VMC_OUT", VERIF)  # mutation runs write their evidence/replays elsewhere
+    os.makedirs(os.path.join(OUT, "replays", pid), exist_ok=True)
+    os.makedirs(os.path.join(OUT, "evidence"), exist_ok=True)
     new_violation = False
     known_hit = []
     lines = []
@@ -120,7 +121,7 @@ def main(argv=None):
             continue
         new_violation = True
         v = vs[0]
-        path = os.path.join(VERIF, "replays", pid, _slug(sig) + ".json")
+        path = os.path.join(OUT, "replays", pid, _slug(sig) + ".json")
         with open(path, "w") as f:
             f.write(
                 dumps(
@@ -178,7 +179,7 @@ def main(argv=None):
         "wall_s": round(wall, 3),
         "violations": sum(report.viol_counts[s] for s in report.viol_counts if (pid, s) not in known),
     }
-    with open(os.path.join(VERIF, "evidence", pid + ".json"), "w") as f:
+    with open(os.path.join(OUT, "evidence", pid + ".json"), "w") as f:
         json.dump(ev, f, indent=1, sort_keys=True)
         f.write("\n")
 
